@@ -29,13 +29,26 @@ def main():
             print(mid, 'patch does not apply:', r.stdout[:200]); continue
         res = {}
         try:
-            for pid in props:
+            # the property checks are independent processes; a few run at once (VERIF_PARALLEL gives their build files distinct names).
+            # The native crate is built once first so that the parallel checks find it up to date.
+            sh(['cargo', 'build', '--offline', '--release', '--quiet'], cwd=os.path.join(V, 'replay'),
+               env=dict(os.environ, CARGO_NET_OFFLINE='true', CARGO_TARGET_DIR=os.path.join(V, 'target', 'replay')))
+            def one(pid):
                 t0 = time.time()
-                p = sh([os.path.join(V, 'check'), pid, 'quick'], cwd=V)
+                p = sh([os.path.join(V, 'check'), pid, 'quick'], cwd=V, env=dict(os.environ, VERIF_PARALLEL='1'))
                 lines = [l for l in p.stdout.splitlines() if l.startswith('VIOLATION') or l.startswith('FAILED OBLIGATION') or l.startswith('UNDECIDED')]
-                res[pid] = dict(rc=p.returncode, lines=lines[:6], wall_s=round(time.time() - t0, 1))
+                return pid, dict(rc=p.returncode, lines=lines[:6], wall_s=round(time.time() - t0, 1))
+            import concurrent.futures as cf
+            with cf.ThreadPoolExecutor(max_workers=int(os.environ.get('SELFTEST_JOBS', '4'))) as ex:
+                for pid, r_ in ex.map(one, props):
+                    res[pid] = r_
         finally:
             sh(['git', '-C', REPO, 'checkout', '--', '.'])
+            import glob, re as _re
+            for f_ in glob.glob(os.path.join(V, 'build', 'u_*.rs')):
+                if _re.search(r'_[0-9a-f]{10}\.rs$', f_):
+                    try: os.remove(f_)
+                    except OSError: pass
         json.dump(dict(id=mid, breaks=meta.get('breaks'), results=res), open(os.path.join(d, 'result.json'), 'w'), indent=1)
         alarm = [k for k, v in res.items() if v['rc'] == 1]
         und = [k for k, v in res.items() if v['rc'] == 2]
